@@ -147,16 +147,15 @@ func ParseScrape(r *http.Request, opts ParseOptions) (*bittorrent.ScrapeRequest,
 // requestedIP determines the IP address for a BitTorrent client request.
 func requestedIP(r *http.Request, p bittorrent.Params, opts ParseOptions) (ip net.IP, provided bool) {
 	if opts.AllowIPSpoofing {
-		if ipstr, ok := p.String("ip"); ok {
-			return net.ParseIP(ipstr), true
-		}
-
-		if ipstr, ok := p.String("ipv4"); ok {
-			return net.ParseIP(ipstr), true
-		}
-
-		if ipstr, ok := p.String("ipv6"); ok {
-			return net.ParseIP(ipstr), true
+		// The unspecified address (0.0.0.0, ::) stands for "the address this
+		// request comes from", like a zero IP field of a UDP announce: such a
+		// parameter is passed over.
+		for _, key := range []string{"ip", "ipv4", "ipv6"} {
+			if ipstr, ok := p.String(key); ok {
+				if ip := net.ParseIP(ipstr); !ip.IsUnspecified() {
+					return ip, true
+				}
+			}
 		}
 	}
 
